@@ -25,10 +25,12 @@ HARNESSES = {
           bounded="ONE concrete 7-node perfect-recall tree; every profile with probabilities in {0, 1/2, 1}"),
     ],
     "C13": [
+        H("ieee_classification", "data", "K.ieee_classification", complete=True),
         H("c13_named_len_prefix_and_content", "lib", "C13.K.named.len_prefix",
           bounded="player one: infosets of 2 and 3 actions + one single-action infoset; entries any f64 in [0,1]"),
     ],
     "C14": [
+        H("ieee_classification", "data", "K.ieee_classification", complete=True),
         H("c14_import_case_multi_single", "lib", "C14.K.import_slow.accepts_iff", bounded="one multi-action infoset (2 actions) [+ one single-action infoset]; 2 entries x 1 pair with the concrete name pattern `multi_single`; weights ANY f64 (legal ones <= 1e300)", group="safe_rust", tier="thorough", timeout=2400),
         H("c14_import_case_single_multi", "lib", "C14.K.import_slow.accepts_iff", bounded="one multi-action infoset (2 actions) [+ one single-action infoset]; 2 entries x 1 pair with the concrete name pattern `single_multi`; weights ANY f64 (legal ones <= 1e300)", group="safe_rust", tier="thorough", timeout=2400),
         H("c14_import_case_repeat", "lib", "C14.K.import_slow.accepts_iff", bounded="one multi-action infoset (2 actions) [+ one single-action infoset]; 2 entries x 1 pair with the concrete name pattern `repeat`; weights ANY f64 (legal ones <= 1e300)", group="safe_rust", tier="thorough", timeout=2400),
